@@ -215,6 +215,9 @@ def rule_move(ctx):
                 return t_ in (what, "os.path.abspath(%s)" % what, "posixpath.abspath(%s)" % what, "os.path.realpath(%s)" % what, "os.path.normpath(%s)" % what)
             if (names_file(sides[0], new) and names_file(sides[1], "%s.path" % fi)) or (names_file(sides[1], new) and names_file(sides[0], "%s.path" % fi)):
                 same = st.targets[0].id
+    # (a bare `return` that ends an arm written as a guard clause is not part of what the arm does)
+    pl = [s_ for s_ in pl if not (isinstance(s_, ast.Return) and s_.value is None)] or pl
+    ct = [s_ for s_ in ct if not (isinstance(s_, ast.Return) and s_.value is None and s_ is ct[-1])] or ct
     if same is not None and len(pl) == 1 and isinstance(pl[0], ast.If):
         sp = arms(pl[0], same, pl)
         if sp is not None:
@@ -360,8 +363,34 @@ def rule_write(ctx):
            "self.post_reader(file_info, data) whenever a post_reader is set, the handler's data otherwise - on every return",
            node=rets[0] if rets else r.node, func=r)
     ra = [st for st in rflow.stmts if isinstance(st, ast.Assign) and norm(st.targets[0]) == "read_args"]
-    ctx.ob("FileSet.read.args", bool(ra) and norm(ra[0].value).replace(" ", "") == "{**self.read_args,**read_args}" and all("**read_args" in norm(c) for c in hr),
-           "%s" % (norm(ra[0]) if ra else None), "read_args = {**self.read_args, **read_args}; passed to the handler", node=ra[0] if ra else r.node, func=r)
+    ok_ra = bool(ra) and norm(ra[0].value).replace(" ", "") == "{**self.read_args,**read_args}" and all("**read_args" in norm(c) for c in hr)
+    fact_ra = "%s" % (norm(ra[0]) if ra else None)
+    if not ok_ra:
+        kwn = r.node.args.kwarg.arg if r.node.args.kwarg else "read_args"
+        ok_ra, facts_ = _merged_args_ok(rflow, hr, "read_args", kwn)
+        fact_ra = "handler reads receive %s" % facts_
+    ctx.ob("FileSet.read.args", ok_ra, fact_ra, "read_args = {**self.read_args, **read_args}; passed to the handler", node=ra[0] if ra else r.node, func=r)
+
+
+def _merged_args_ok(flow, calls, attr, kwname):
+    """every handler call passes **X with X = {**self.<attr>, **<the caller's keyword arguments>} (whatever X is called)"""
+    want = "{**self.%s,**%s}" % (attr, kwname)
+    facts = []
+    ok = bool(calls)
+    for c in calls:
+        stars = [k.value for k in c.keywords if k.arg is None]
+        if len(stars) != 1:
+            ok = False
+            facts.append("%s: %d ** arguments" % (norm(c)[:50], len(stars)))
+            continue
+        v = flow.resolve(stars[0], at=c, depth=2, stop=("self",))
+        t = str(norm(v)).replace(" ", "")
+        if t.startswith("{**self.%s,**{" % attr) and t.endswith("}}"):
+            t = "{**self.%s,**%s}" % (attr, t[len("{**self.%s,**" % attr):-1])
+        facts.append("**%s" % t)
+        # (the parameter may have been re-bound to the merged dictionary: the inner name is then the caller's argument)
+        ok = ok and t in (want, "{**self.%s,**%s}" % (attr, want))
+    return ok, facts
 
 
 def rule_handlers(ctx):
@@ -485,6 +514,14 @@ def rule_ncmode(ctx):
                 raise AnalysisError("NetCDF4.write: mode selection %s not understood" % norm(mode))
         else:
             raise AnalysisError("NetCDF4.write: mode selection %s not understood" % norm(mode))
+    elif isinstance(mode, ast.Name) and uname == mode.id:
+        # the caller's mode kept in a local that is set to 'a' after the first write
+        sets = [st for st in lp.body if isinstance(st, ast.Assign) and len(st.targets) == 1 and norm(st.targets[0]) == mode.id]
+        others = [st for st in flow.stmts if isinstance(st, (ast.Assign, ast.AugAssign)) and st not in sets and st is not um[0]
+                  and any(isinstance(n2, ast.Name) and n2.id == mode.id and isinstance(n2.ctx, ast.Store) for n2 in ast.walk(st))]
+        ok = len(sets) == 1 and norm(sets[0].value).replace('"', "'") == "'a'" and flow._order(sets[0]) > flow._order(enclosing_stmt(c)) and not others \
+            and not any(um[0] is x for x in ast.walk(lp))
+        fact = "%s = %s before the loop; %s after the write" % (mode.id, norm(um[0].value), norm(sets[0]) if sets else "never re-bound")
     else:
         raise AnalysisError("NetCDF4.write: mode %s is not a selection between the caller's mode and 'a'" % norm(mode))
     ctx.ob("NetCDF4.write.mode", ok, "mode = %s" % fact, "'a' if a group was already written in this call else the caller's mode ('w' by default): one file, all groups kept, old content replaced",
